@@ -1,4 +1,5 @@
 import PyYetiVerif.Model.RigidBody
+import PyYetiVerif.Model.RigidBodyGuyan
 /-! Line protocol for C06.  Floats travel as decimal `UInt64` bit patterns, integers in decimal.
 Matrices are sent row-major.
 
@@ -12,7 +13,20 @@ request                                                         reply
 `cbcheck n nb bseto… bref(6) conv(0 | 1 lc mc) reorder rbnorm(-1|0|1) uref(0 x y z | 1 gridrow)
          u(3 nb) M(n n) K(n n)`
       → `chk m(n n) k(n n) rbs(6 n) rbg(6 nb) ms(36) mg(36) effmass(6 nq) percent(6 nq) frq(nq)
-         resid(36)` with `chk` = `pass`/`fail`/`single` (refpoint check; `single` when lb = 6)
+         resid(36) ds(3) dg(3) gyrs(3) gyrg(3) Is(9) Ig(9) rbfs(6 n) Ss(36) rbfg(6 nb) Sg(36)
+         rsss(3 ng) rssg(3 ng) rots(3 ng) rotg(3 ng) coords(3 ng) errs(ng) vals(6) ntrim nnull nml null… ml…`
+         (`ntrim` zero-stiffness boundary DOF trimmed by `_cbcoordchk`; `null`/`ml` the two `pv` lists `_solve_eig` prints)
+         with `chk` = `pass`/`fail`/`single` (refpoint check; `single` when there is no other DOF),
+         or `raise-refpoint` when a reference DOF has zero stiffness, `raise-singular` when a node's
+         translation block is singular (zero-stiffness translation)
+`solveeig n nb p bset… M(n n) K(n n) V(n p)`
+      → `n1 nx nzm keep(n1) xs(nx) zs(nzm) bflag(nx) kred(nx nx) mred(nx nx) psi(nzm nx) presid V'(n p)`
+         (`V'` = the rows of `V` on the DOF with mass, expanded back by the model)
+`rbdisp nn tol rb(3 nn 6)`                                      `coords(3 nn) errs(nn) warn(nn)` | `raise-singular`
+`netdrm nb nbi n conv(0 | 1 lc mc) bset… sub… u(3 nb) ref(3) M(n n)`  `drm_sc(6 n) drm_lv(6 n)` (mk_net_drms: `rb.T @ M[bset[sub]]`
+         with `rb = rbgeom_uset(uset[sub], ref)`; s/c version converted as a DRM, l/v version from converted M, uset, ref)
+`rbmult nr nc nb bset… drm(nr nc) rb(nb 6)`                     `drmrb(nr 6)`
+`cbtf0 n nb bset… a(nb) M(n n)`                                 `frc(nb) rhs(nq)`
 anything else → `bad-op` -/
 open PyYetiVerif.RigidBody
 
@@ -75,6 +89,71 @@ def gesolve (n m : Nat) (A B : NMat Float) : Array Float := Id.run do
       x := x.set! (i * m + j) (s / a[i * w + i]!)
   pure x
 
+
+def maxAbs (a : Array Float) : Float := a.foldl (fun m x => if x.abs > m then x.abs else m) 0
+
+/-- `_rbdispchk` on the rows `rb[xyz]` (3 per node): coordinates, errors, warning flags; `none` when a
+translation block is exactly singular (`linalg.solve` raises) -/
+def rbdispAll (nn : Nat) (rb : NMat Float) (tol : Float) : Option (Array Float × Array Float × Array Nat) := Id.run do
+  let mut cs : Array Float := #[]
+  let mut es : Array Float := #[]
+  let mut ws : Array Nat := #[]
+  for j in [0:nn] do
+    let (T, TR) := rbdispBlocks rb j
+    if T.det == 0 then return none
+    let d := rbdispNode T TR
+    cs := cs ++ #[d.coords.x, d.coords.y, d.coords.z]
+    es := es.push (rbdispErr d)
+    ws := ws.push (if rbdispWarn d tol then 1 else 0)
+  pure (some (cs, es, ws))
+
+/-- the preparation of `_solve_eig`: kept DOF, DOF with / without mass (positions in the trimmed
+matrices), b flags, reduced stiffness and mass, psi, max residual of the psi specification -/
+structure EigPrep where
+  keep : List Nat
+  xs : List Nat
+  zs : List Nat
+  bflag : List Bool
+  kred : Array Float
+  mred : Array Float
+  psi : Array Float
+  presid : Float
+
+def eigPrep (n : Nat) (M K : NMat Float) (bset : List Nat) : EigPrep :=
+  let keep := eigKeep n M K
+  let n1 := keep.length
+  let kf : Nat → Nat := fun i => keep[i]!
+  let m1a := tab n1 n1 (reorder M kf)
+  let m1 := ofArr m1a n1
+  let k1a := tab n1 n1 (reorder K kf)
+  let k1 := ofArr k1a n1
+  let xs := massKeep n1 m1
+  let zs := massless n1 m1
+  let nx := xs.length
+  let nzm := zs.length
+  let xf : Nat → Nat := fun i => xs[i]!
+  let zf : Nat → Nat := fun i => zs[i]!
+  -- psi = solve(-k[zz], k[zx])
+  let nkzz_a := tab nzm nzm (fun i j => -(k1 (zf i) (zf j)))
+  let kzx_a := tab nzm nx (fun i j => k1 (zf i) (xf j))
+  let psi_a := if nzm == 0 then #[] else gesolve nzm nx (ofArr nkzz_a nzm) (ofArr kzx_a nx)
+  let psi := ofArr psi_a nx
+  let kred := if nzm == 0 then tab nx nx (reorder k1 xf) else tab nx nx (guyanK nzm k1 xf zf psi)
+  let mred := tab nx nx (reorder m1 xf)
+  let presid := if nzm == 0 then 0 else maxAbs (tab nzm nx (psiResid nzm k1 xf zf psi))
+  let bflag := xs.map fun i => bset.contains (keep[i]!)
+  { keep := keep, xs := xs, zs := zs, bflag := bflag, kred := kred, mred := mred, psi := psi_a, presid := presid }
+
+/-- eigenvectors of the reduced problem expanded to the full DOF list (`_solve_eig`, cb.py:2342-2352) -/
+def eigExpand (n p : Nat) (e : EigPrep) (vred : NMat Float) : Array Float :=
+  let nx := e.xs.length
+  let n1 := e.keep.length
+  let v1a := if e.zs.length == 0 then tab n1 p (nullExpand e.xs vred)
+    else tab n1 p (guyanExpand nx e.xs e.zs (ofArr e.psi nx) vred)
+  tab n p (nullExpand e.keep (ofArr v1a p))
+
+def fmtNats (l : List Nat) : String := " ".intercalate (l.map toString)
+
 def usetKinds (_ng : Nat) (u : NMat Float) : (Nat → Bool) × (Nat → Bool) :=
   (fun g => u (6 * g + 1) 1 == 2, fun g => u (6 * g + 1) 1 == 3)
 
@@ -133,19 +212,28 @@ def doCbcheck : P String := do
   let rbg := ofArr rbg_a 6
   let contiguous := (List.range 5).all fun i => bref[i+1]! == bref[i]! + 1
   let rbnorm := if rbn == -1 then !contiguous else rbn == 1
-  -- stiffness-based modes (no zero-stiffness trimming: the harness generates none)
+  -- stiffness-based modes, with the zero-stiffness trimming of `_cbcoordchk` (only when lb > 6)
   let bfn : Nat → Nat := fun i => bset[i]!
   let kbb_a := tab nb nb (reorder K2 bfn)
   let kbb := ofArr kbb_a nb
-  let o := flippv refp nb
+  let keep0 := coordKeep nb kbb
+  let trimmed := nb > 6 && keep0.length < nb
+  let keep := if trimmed then keep0 else List.range nb
+  let lbT := keep.length
+  let kpf : Nat → Nat := fun i => keep[i]!
+  let kbbT_a := if trimmed then tab lbT lbT (reorder kbb kpf) else kbb_a
+  let kbbT := ofArr kbbT_a lbT
+  let refT := if trimmed then trimRef keep refp else refp
+  if refT.length != 6 then return "raise-refpoint"
+  let o := flippv refT lbT
   let no := o.length
-  let rf : Nat → Nat := fun i => refp[i]!
+  let rf : Nat → Nat := fun i => refT[i]!
   let of : Nat → Nat := fun i => o[i]!
-  let kor_a := tab no 6 (fun i j => kbb (of i) (rf j))
+  let kor_a := tab no 6 (fun i j => kbbT (of i) (rf j))
   let kor := ofArr kor_a 6
-  let koo_a := tab no no (fun i j => kbb (of i) (of j))
+  let koo_a := tab no no (fun i j => kbbT (of i) (of j))
   let koo := ofArr koo_a no
-  let krr_a := tab 6 6 (fun i j => kbb (rf i) (rf j))
+  let krr_a := tab 6 6 (fun i j => kbbT (rf i) (rf j))
   let krr := ofArr krr_a 6
   let Sa := gesolve no 6 koo kor
   let X_a := tab no 6 (fun i j => -(Sa[i * 6 + j]!))
@@ -162,12 +250,16 @@ def doCbcheck : P String := do
         let rhs := krr i j - resid i j
         (resid i j).abs <= kmax * 1e-8 + 1e-5 * rhs.abs
       if ok then "pass" else "fail"
-  let rbsB0_a := tab nb 6 (rbsAssemble refp o X)
+  let rbsT_a := tab lbT 6 (rbsAssemble refT o X)
+  let rbsB0_a := if trimmed then tab nb 6 (nullExpand keep (ofArr rbsT_a 6)) else rbsT_a
   let rbsB0 := ofArr rbsB0_a 6
   let normz_a := tab 6 6 (fun i j => rbg (bref[i]! - bmin) j)
   let normz := ofArr normz_a 6
   let rbsBa := if rbnorm then tab nb 6 (mulN 6 rbsB0 normz) else rbsB0_a
   let rbsB := ofArr rbsBa 6
+  -- coordinates from the translation rows (`rbdispchk(rbmodes[xyz])`)
+  let xyz_a := tab (3 * ng) 6 (fun i j => rbsB (6 * (i / 3) + i % 3) j)
+  let some (coords, errs, _) := rbdispAll ng (ofArr xyz_a 6) 1.0e-4 | return "raise-singular"
   -- rows of the full-size modes: b-set rows hold rbsB, modal rows are zero
   let rbs_a := tab n 6 (fun i j => match idxIn bset i with | some k => rbsB k j | none => 0)
   let rbs := ofArr rbs_a 6
@@ -186,8 +278,122 @@ def doCbcheck : P String := do
   let ep_a := tab nq 6 (effmassPercent nb mqb rbg mg 100)
   let ep := ofArr ep_a 6
   let frq := (List.range nq).toArray.map fun i => (K2 (qf i) (qf i)).abs.sqrt / twoPi
-  pure (" ".intercalate [chk, fmtM n n M2, fmtM n n K2, fmtM n 6 rbs, fmtM nb 6 rbg, fmtM 6 6 ms,
-    fmtM 6 6 mg, fmtM nq 6 em, fmtM nq 6 ep, fmtA frq, fmtM 6 6 resid])
+  -- mass properties at the cg
+  let (mcgs0, ds) := cgmass ms
+  let mcgs_a := tab 6 6 mcgs0
+  let mcgs := ofArr mcgs_a 6
+  let (mcgg0, dg) := cgmass mg
+  let mcgg_a := tab 6 6 mcgg0
+  let mcgg := ofArr mcgg_a 6
+  let Is_a := tab 3 3 (fun i j => mcgs (i + 3) (j + 3))
+  let Ig_a := tab 3 3 (fun i j => mcgg (i + 3) (j + 3))
+  -- grounding
+  let rbfs_a := tab n 6 (mulN n K2 rbs)
+  let rbfs := ofArr rbfs_a 6
+  let Ss_a := tab 6 6 (mulN n (trN rbs) rbfs)
+  let rbfg_a := tab nb 6 (mulN nb kbb rbg)
+  let rbfg := ofArr rbfg_a 6
+  let Sg_a := tab 6 6 (mulN nb (trN rbg) rbfg)
+  -- root-sum-square movement checks
+  let rss (rb : NMat Float) (off : Nat) : Array Float :=
+    tab ng 3 (fun g c =>
+      let a0 := rb (6 * g + off) (c + off); let a1 := rb (6 * g + off + 1) (c + off); let a2 := rb (6 * g + off + 2) (c + off)
+      (a0 * a0 + a1 * a1 + a2 * a2).sqrt)
+  -- matrix value checks on the matrices `_solve_eig` hands back
+  let e := eigPrep n M2 K2 bset
+  let nx := e.xs.length
+  let kr := ofArr e.kred nx; let mr := ofArr e.mred nx
+  let bi := (List.range nx).filter fun i => e.bflag[i]!
+  let qi := (List.range nx).filter fun i => !(e.bflag[i]!)
+  let big : Float := 1.0e308
+  let v1 := qi.foldl (fun m i => let x := (mr i i - 1).abs; if x > m then x else m) 0
+  let v2 := qi.foldl (fun m i => qi.foldl (fun m2 j => if i != j && (mr i j).abs > m2 then (mr i j).abs else m2) m) 0
+  let v3 := bi.foldl (fun m i => bi.foldl (fun m2 j => if (kr i j).abs > m2 then (kr i j).abs else m2) m) 0
+  let v4 := bi.foldl (fun m i => qi.foldl (fun m2 j => if (kr i j).abs > m2 then (kr i j).abs else m2) m) 0
+  let v5 := qi.foldl (fun m i => qi.foldl (fun m2 j => if i != j && (kr i j).abs > m2 then (kr i j).abs else m2) m) 0
+  let v6 := qi.foldl (fun m i => if kr i i < m then kr i i else m) big
+  let parts : List String := [chk, fmtM n n M2, fmtM n n K2, fmtM n 6 rbs, fmtM nb 6 rbg, fmtM 6 6 ms,
+    fmtM 6 6 mg, fmtM nq 6 em, fmtM nq 6 ep, fmtA frq, fmtM 6 6 resid,
+    fmtV ds, fmtV dg, fmtV (gyr mcgs), fmtV (gyr mcgg), fmtA Is_a, fmtA Ig_a,
+    fmtA rbfs_a, fmtA Ss_a, fmtA rbfg_a, fmtA Sg_a,
+    fmtA (rss rbsB 0), fmtA (rss rbg 0), fmtA (rss rbsB 3), fmtA (rss rbg 3),
+    fmtA coords, fmtA errs, fmtA #[v1, v2, v3, v4, v5, v6], toString (nb - lbT),
+    toString (n - e.keep.length), toString e.zs.length,
+    fmtNats ((List.range n).filter fun i => !e.keep.contains i), fmtNats e.zs]
+  pure (" ".intercalate (parts.filter (· ≠ "")))
+
+def doSolveEig : P String := do
+  let n ← pNat; let nb ← pNat; let p ← pNat
+  let bset ← pMany nb pNat
+  let Ma ← pMany (n * n) pF; let Ka ← pMany (n * n) pF; let Va ← pMany (n * p) pF
+  pEnd
+  let e := eigPrep n (ofArr Ma n) (ofArr Ka n) bset.toList
+  let V := ofArr Va p
+  -- rows of V on the DOF with mass (positions in the original numbering)
+  let vred_a := tab e.xs.length p (fun a c => V (e.keep[e.xs[a]!]!) c)
+  let vexp := eigExpand n p e (ofArr vred_a p)
+  let parts := [toString e.keep.length, toString e.xs.length, toString e.zs.length, fmtNats e.keep, fmtNats e.xs,
+    fmtNats e.zs, fmtNats (e.bflag.map fun b => if b then 1 else 0), fmtA e.kred, fmtA e.mred, fmtA e.psi,
+    fmtF e.presid, fmtA vexp]
+  pure (" ".intercalate (parts.filter (· ≠ "")))
+
+def doRbdisp : P String := do
+  let nn ← pNat; let tol ← pF
+  let a ← pMany (3 * nn * 6) pF; pEnd
+  match rbdispAll nn (ofArr a 6) tol with
+  | none => pure "raise-singular"
+  | some (cs, es, ws) => pure (" ".intercalate ([fmtA cs, fmtA es, fmtNats ws.toList].filter (· ≠ "")))
+
+def doNetdrm : P String := do
+  let nb ← pNat; let nbi ← pNat; let n ← pNat
+  let cflag ← pNat
+  let (lc, mc) ← (if cflag == 1 then do let a ← pF; let b ← pF; pure (a, b) else pure (1.0, 1.0))
+  let bset ← pMany nb pNat; let sub ← pMany nbi pNat
+  let ua ← pMany (3 * nb) pF; let ref ← pV3
+  let Ma ← pMany (n * n) pF; pEnd
+  let bl := bset.toList
+  let M := ofArr Ma n
+  let u := ofArr ua 3
+  let ngi := nbi / 6
+  let bi : Nat → Nat := fun k => bset[sub[k]!]!
+  -- rows of the uset of the interface subset (`uset.iloc[bsubset]`)
+  let uif (u : NMat Float) : NMat Float := fun i j => u (sub[i]!) j
+  -- (arrays are bound by `let` before they are wrapped by `ofArr`: otherwise the table is rebuilt at every access)
+  let rbArr (u : NMat Float) (r : V3 Float) : Array Float :=
+    let uia := tab nbi 3 (uif u)
+    let ui := ofArr uia 3
+    let (isC, isS) := usetKinds ngi ui
+    tab nbi 6 (rbgeomUset ui isC isS r)
+  let rb_a := rbArr u ref
+  let rb := ofArr rb_a 6
+  let dsc0_a := tab 6 n (netDrm nbi rb M bi)
+  let dsc0 := ofArr dsc0_a n
+  let dsc := if cflag == 1 then tab 6 n (cbconvert dsc0 bl lc mc true) else dsc0_a
+  let M'_a := if cflag == 1 then tab n n (cbconvert M bl lc mc false) else Ma
+  let M' := ofArr M'_a n
+  let u'_a := if cflag == 1 then tab nb 3 (usetConvert u lc) else ua
+  let u' := ofArr u'_a 3
+  let rb'_a := rbArr u' ⟨ref.x * lc, ref.y * lc, ref.z * lc⟩
+  let rb' := ofArr rb'_a 6
+  let dlv := if cflag == 1 then tab 6 n (netDrm nbi rb' M' bi) else dsc0_a
+  pure (fmtA dsc ++ " " ++ fmtA dlv)
+
+def doRbmult : P String := do
+  let nr ← pNat; let nc ← pNat; let nb ← pNat
+  let bset ← pMany nb pNat
+  let d ← pMany (nr * nc) pF; let rb ← pMany (nb * 6) pF; pEnd
+  pure (fmtM nr 6 (rbmult nb (ofArr d nc) (ofArr rb 6) (fun k => bset[k]!)))
+
+def doCbtf0 : P String := do
+  let n ← pNat; let nb ← pNat
+  let bset ← pMany nb pNat
+  let a ← pMany nb pF; let Ma ← pMany (n * n) pF; pEnd
+  let M := ofArr Ma n
+  let q := flippv bset.toList n
+  let bf : Nat → Nat := fun k => bset[k]!
+  let frc := (List.range nb).toArray.map (cbtfStaticFrc nb M bf (fun k => a[k]!))
+  let rhs := (List.range q.length).toArray.map (cbtfStaticRhs nb M bf (fun i => q[i]!) (fun k => a[k]!))
+  pure (" ".intercalate ([fmtA frc, fmtA rhs].filter (· ≠ "")))
 
 def answerP : P String := do
   let op ← tok
@@ -218,6 +424,11 @@ def answerP : P String := do
       let nb ← pNat; let b ← pMany nb pNat; let a ← pMany (nr * lt) pF; pEnd
       pure (fmtM nr lt (cbconvert (ofArr a lt) b.toList lc mc (drm == 1)))
   | "cbcheck" => doCbcheck
+  | "solveeig" => doSolveEig
+  | "rbdisp" => doRbdisp
+  | "netdrm" => doNetdrm
+  | "rbmult" => doRbmult
+  | "cbtf0" => doCbtf0
   | _ => failure
 
 def answer (line : String) : String :=
